@@ -261,6 +261,14 @@ fn check_cli(case: &Case, ctx: &Ctx) -> Outcome {
         cli::write_fastq(&dir.join("reads_2.fastq"), &[(reads[1].clone(), vec![b'I'; reads[1].len()])]);
         std::fs::write(dir.join("list.txt"), "smp\tsmp.fa\nreads\treads_1.fastq\treads_2.fastq\n").unwrap();
         vec!["build", "-o", "out", "-k", &ks, "-f", "list.txt", "--min-count", "1", "--qual-filter", "no-filter"]
+    } else if !dict.is_empty() && seqs.len() >= 2 && (case.k / 2 + seqs.len()) % 4 == 1 {
+        // one sample whose records are spread over two FASTA files named on one list line
+        // (chromosome.fa plus plasmids.fa of an isolate): the sample is the union of both files
+        let cut = 1 + seqs.len() / 2;
+        cli::write_fasta_auto(&dir.join("part_a.fa"), &seqs[..cut.min(seqs.len() - 1)], case.width.map(|w| w as usize));
+        cli::write_fasta_auto(&dir.join("part_b.fa"), &seqs[cut.min(seqs.len() - 1)..], None);
+        std::fs::write(dir.join("list2.txt"), "smp\tpart_a.fa\tpart_b.fa\n").unwrap();
+        vec!["build", "-o", "out", "-k", &ks, "-f", "list2.txt"]
     } else {
         vec!["build", "-o", "out", "-k", &ks, "smp.fa"]
     };
